@@ -267,6 +267,25 @@ def norm_cache(F, rep, rid):
                 h.q, "only when that component is enabled" if en else "for EVERY component, enabled or not"), en,
                 detail="forces are applied to, and total forces collected from, the enabled components only: with a disabled component "
                        "the measured total force is scaled by the wrong sum", func=h.q)
+            # the recomputation starts from zero: a plain assignment of the field dominates the sum, in this function or in
+            # every function that calls it
+            def resets_before(fn, site):
+                return [w2 for w2, t2 in lvalue_writes(fn) if X.key(t2, fn) == "this.active_cvc_square_norm" and w2.get("op") == "=" and fn.cfg.dominates(w2, site)]
+            own = resets_before(h, w)
+            missing = []
+            if not own:
+                from . import callgraph
+                cg = callgraph.get(F)
+                callers = cg.callers(h.m)
+                if not callers:
+                    missing.append(h.q)
+                for cf, cc in callers:
+                    if not cf.cfg.ok or not resets_before(cf, cc):
+                        missing.append(cf.q)
+            rep.add(rid, "%s|from-zero" % h.q, h.loc(w), "%s sums the squared coefficients %s" % (
+                h.q, "starting from a reset in the same function" if own else
+                ("after a reset in every caller" if not missing else "WITHOUT a preceding reset when called from %s" % sorted(set(missing)))), not missing,
+                detail="the sum of the previous configuration is added to the new one: the measured total force is divided by too large a norm", func=h.q)
     if m < 1:
         raise AnalysisBroken("%s: no run-time recomputation of active_cvc_square_norm found" % rid)
 
